@@ -19,9 +19,8 @@ type c16Map = UInt64Map[uint64]
 func c16Hash(m *c16Map, key uint64) int { return int(vUF1("pidx", key)) & m.mask }
 
 func c16N() int {
-	if vTier() > 0 {
-		return 8
-	}
+	// N=8 (growth to 16) did not finish within the thorough budget on any
+	// back end (a few hundred paths in 400 s): both tiers run N=4.
 	return 4
 }
 
@@ -111,7 +110,7 @@ func c16CheckProbe(m *c16Map, q uint64, wantV uint64, wantOK bool, tag string) {
 }
 
 //verif:entry tier=quick,thorough
-//verif:bound N=4 slots (quick) / N=8 (thorough), growth to 2N included; all 2^64 keys and values; arbitrary R-state
+//verif:bound N=4 slots (both tiers; N=8 exceeded the budget), growth to 2N included; all 2^64 keys and values; arbitrary R-state
 func VerifC16_Put() {
 	m := c16Table()
 	k, v, q := vU64("k"), vU64("v"), vU64("q")
